@@ -6,6 +6,10 @@ props = [json.loads(l) for l in open(os.path.join(V, "properties.jsonl"))]
 
 EVAL_NOTE = "trusted: TLC; the renderer's canonical layout and path->line map; H2 hook events (emitted after each VM state change in the single evaluator goroutine); program families are bounded (sizes in the evidence)"
 CHECKS = {
+ "C20": dict(
+   technique="TLA+ spec of the prefork master (ZnPrefork: one action per critical section, asynchronous spawn loops, intended design vs named deviation 'ascoded') exhaustively model-checked by TLC; TLC counterexamples and simulated behaviours replayed through H5 scheduling gates into the real master with real worker processes; every recorded H5 event log validated by TLC against Trace_ZnPrefork",
+   level="TLC explores every interleaving of master, spawn-loop, worker and fault actions for small configurations (init <= max <= 3, thorough 4; batch 10 and 2; <= 3 requests, <= 1 crash/hang): live <= max, refCount = registered + reserved, live <= refCount <= max, a timeout changes no other worker (thorough: refill liveness under fairness). In the same run TLC refutes Bound for the original bookkeeping and its counterexample schedules, plus simulated behaviours of the intended design, are replayed into the real ZnPMServer.StartMaster (in-process) with real StartWorker child processes by holding and releasing cmd.Start and the three channel sends in schedule order; free-running randomized load with hung requests and crashing workers is run over 6 configurations. Every run is checked for live <= max (event log and /proc sampling), >= init alive once quiet, exactly-one own-token response per request, and its complete event log is accepted by the trace spec (action, refCount, table size and spawn-loop size bound at every event).",
+   note="trusted: TLC; H5 hooks (events emitted by the goroutine that performs the step; gates before the sends); /proc as the independent process count; worker-internal steps unlogged", ref="5 C20"),
  "C16": dict(
    technique="TLA+ isolation spec (ZnIso: process-level cells, polluter alphabet, intended design vs named deviation 'ascoded') model-checked by TLC; all polluter sequences replayed in fresh processes against a probe; all interleavings of concurrent requests replayed through the real playground handler with H4 scheduling gates; Go race detector in the thorough tier",
    level="Sequential: TLC enumerates all 400 sequences of <= 3 polluters over a 7-letter alphabet (in-place mutation of 数值, redefinition of the constructor of 异常 and of a library type, mutation of a library default through an instance, failure three calls deep, declarations, imports); each runs on one interpreter object and on separate ones in a fresh process, followed by a probe that reads every cell, whose observation must equal the pristine one. Concurrent: all interleavings of bind-source / read-source of 2 requests (and 30 of the 90 of 3; thorough all) are forced through one ZnPlaygroundHandler by blocking gates: every request must get its own program's result. In every run TLC proves Isolation / OwnProgram for the intended design and refutes them for the deviation (sensitivity). Data races are reported by go build -race in the thorough tier.",
